@@ -35,6 +35,7 @@ func init() {
 		"Trimpath":    vxTrimpath,
 		"Freeze":      vxFreeze,
 		"Shared":      vxShared,
+		"SharedGlobals": vxSharedGlobals,
 		"FrameFile":   vxFrameFile,
 		"Symbolic":    func(fr *frame, args []value) value { return true },
 		"Stdout":      func(fr *frame, args []value) value { return mkstr(fr.i.path.stdout) },
@@ -262,6 +263,26 @@ func vxShared(fr *frame, args []value) value {
 		}
 	default:
 		fr.i.abort("Shared: unsupported %T", itf.v)
+	}
+	return nil
+}
+
+// vxSharedGlobals(prefix): from now on every store to a package-level variable
+// (its struct fields and array elements included) of a package below prefix is a
+// scheduling point before and after the store, so that unsynchronised use of a
+// package-level scratch variable by two goroutines is explored like any other
+// interleaving. Harness overlay files are exempt.
+func vxSharedGlobals(fr *frame, args []value) value {
+	i := fr.i
+	s := i.path.sched
+	s.racyPrefix = toString(args[0])
+	if s.racy == nil {
+		s.racy = map[*value]bool{}
+	}
+	for g, addr := range i.globals {
+		if i.racyGlobal(g) {
+			s.registerRacy(addr)
+		}
 	}
 	return nil
 }
